@@ -37,6 +37,9 @@ fn main() {
         std::env::set_var("IVK_NO_EVIDENCE", "1");
         std::process::exit(replay(id, &args[3]));
     }
+    if std::env::var("IVK_LOUD").is_err() {
+        install_abort_handler(id);
+    }
     let tier = match args.get(2).map(|s| s.as_str()) {
         Some("thorough") => Tier::Thorough,
         _ => Tier::Quick,
